@@ -261,7 +261,7 @@ def add_words(r, o, n=None, forbidden=""):
 
 def gen_secrets(r, n, classes=None, words=(), variant_rate=0.12):
     """n secret identities with an `a` value and a same-shape `b` value (paired world)."""
-    classes = classes or ["text", "text", "num", "hex", "t7", "md5", "sha", "j9p", "j9p", "j9p-num", "j9p-hex", "j9p-l1", "c9", "rwc"]
+    classes = classes or ["text", "text", "num", "hex", "t7", "md5", "sha", "j9p", "j9p", "j9p-num", "j9p-hex", "j9p-l1", "c9", "rwc", "aws"]
     out = {}
     used = set()
     for i in range(n):
@@ -332,7 +332,7 @@ def slot_class(cls):
         return "text"
     if cls == "pseudo":
         return "text"
-    if cls in ("j9p", "j9p-num", "j9p-hex", "c9", "j9mix", "j9p-l1", "j9raw"):
+    if cls in ("j9p", "j9p-num", "j9p-hex", "c9", "j9mix", "j9p-l1", "j9raw", "j9p-ws"):
         return "j9"
     if cls.startswith("md5"):
         return "md5"
